@@ -92,27 +92,28 @@ def run(ctx):
         failset = set(fails)
         # (2) direct oracle: observation == the property's reference interpreter.  No failure class is excused any
         # more (KF-C05-1..3 are repaired): every wrong callee is a violation with its session as the failing input
-        nrep = 0
-        for i, c in enumerate(cases):
-            if c["observed"] == c["spec"] and i not in failset:
-                continue
+        # concrete failing histories first (they are what a reader needs), then model mismatches
+        wrong = [i for i, c in enumerate(cases) if c["observed"] != c["spec"]]
+        mism = [i for i, c in enumerate(cases) if c["observed"] == c["spec"] and i in failset]
+        for i in wrong[:5] + mism[:3]:
+            c = cases[i]
             rep = {"mode": c["mode"], "case_seed": c["seed"], "profile": prof, "source": c["source"],
                    "observed": c["observed"], "spec": c["spec"], "model_query": c["query"]}
-            nrep += 1
-            if nrep > 6:
-                continue
             if i in failset:
                 mo, _ = vlib.coq_eval_terms("c05", IMPORTS, [f"session_obs ({c['query']})"])
                 rep["model"] = mo[0]
             if c["observed"] != c["spec"]:
-                sig = "c05:wrong-callee:" + c["mode"]
-                ctx.violation(sig, "a call ran a function other than the one its callee denotes "
+                ctx.violation("c05:wrong-callee:" + c["mode"], "a call ran a function other than the one its callee denotes "
                               f"(observed {c['observed']}, the property requires {c['spec']})", rep)
-                by_sig[sig] = by_sig.get(sig, 0) + 1
             else:
                 ctx.violation("c05:model-mismatch:" + c["mode"],
                               "the implementation follows the property here but the model predicts something else: "
                               "Model/CallCache.v no longer describes the code", rep)
+        for i in wrong:
+            sig = "c05:wrong-callee:" + cases[i]["mode"]
+            by_sig[sig] = by_sig.get(sig, 0) + 1
+        if mism:
+            by_sig["c05:model-mismatch"] = by_sig.get("c05:model-mismatch", 0) + len(mism)
         ctx.add_samples([{"mode": c["mode"], "source": c["source"][:400], "observed": c["observed"], "spec": c["spec"]}
                          for c in cases[:2] + cases[5:6] + cases[8:9]])
     ctx.cov["evaluations"] = total
